@@ -248,6 +248,8 @@ def enumerated_programs():
         'raise': [v('fr')],
         'return': [dict(k='return', ref=dict(r='name', n='vn'))],
         'sub': [v('ta'), v('tx')],
+        'sub-cached': [v('tc'), v('va'), v('tc'), v('tc')],
+        'sub-cache-hook-fails': [v('tcx'), v('tcx')],
         'with-fill': [dict(k='with', ref=dict(r='name', n='mf'),
                            mapping=True, only=False,
                            body=[v('muf'), v('va')])],
